@@ -284,13 +284,21 @@ def run(c):
     rejected = sorted(set(n for part in res for n, _ in part))
     vlib.log("strict validation of %d traces: %d rejected, %.1fs" % (len(items), len(rejected), time.time() - t0))
     # is the whole log of a rejected trace explained by the named deviations of the pinned commit?
-    unexplained, ncand = set(), 0
-    for cfg, sel_big in (("VectorStoreTraceAsIsBulk.cfg", False), ("VectorStoreTraceAsIsBig.cfg", True)):
-        cand = [(n, pack(strip(by_name[n][1]))) for n in rejected if by_name[n][0][3] != "0" and isbig(n) == sel_big]
-        ncand += len(cand)
+    # (all three deviations as at the pinned commit; then, for what is left, the subsets that remain when the
+    # repair of Consolidate or of the buffer-blind reads has been applied to the tree under test)
+    unexplained = set(n for n in rejected if by_name[n][0][3] != "0")
+    explained_by = {}
+    for cfg, sel_big in (("VectorStoreTraceAsIsBulk.cfg", False), ("VectorStoreTraceAsIsBig.cfg", True),
+                         ("VectorStoreTraceAsIsBlindOnlyBulk.cfg", False),
+                         ("VectorStoreTraceAsIsConsolidateOnlyBulk.cfg", False)):
+        cand = [(n, pack(strip(by_name[n][1]))) for n in sorted(unexplained) if isbig(n) == sel_big]
         if cand:
-            unexplained |= set(n for n, _ in bulk_validate(c, cfg, cand, "asis"))
-    explained = set(n for n in rejected if by_name[n][0][3] != "0") - unexplained
+            still = set(n for n, _ in bulk_validate(c, cfg, cand, "asis"))
+            for n, _ in cand:
+                if n not in still:
+                    explained_by[n] = cfg
+            unexplained = (unexplained - set(n for n, _ in cand)) | still
+    explained = set(explained_by)
     # which call exactly: the unpacked logs of the rejected traces
     where = {}
     for cfg, sel_big in (("VectorStoreTraceBulk.cfg", False), ("VectorStoreTraceBig.cfg", True)):
@@ -333,8 +341,8 @@ def run(c):
     for i in range(par):
         if acc[i::par]:
             wjobs.append(("VectorStoreTraceBulk.cfg", acc[i::par], "wb%d" % i))
-    if exp:
-        wjobs.append(("VectorStoreTraceAsIsBulk.cfg", exp, "wbasis"))
+    for k, cfg in enumerate(sorted(set(explained_by[n] for n, _ in exp))):
+        wjobs.append((cfg, [(n, t) for n, t in exp if explained_by[n] == cfg], "wbasis%d" % k))
     with concurrent.futures.ThreadPoolExecutor(max_workers=par + 1) as ex:
         for part in ex.map(lambda j: bulk_validate(c, *j), wjobs):
             wb_mismatch += part
